@@ -55,7 +55,7 @@ func main() {
 			"an authorization with identical content but a different valid GCA signature may be treated as a duplicate (200, nothing changes) or as a conflict (non-200, id banned, evidence appended): both accepted and counted",
 			"a valid authorization for a new id that carries the key of a banned (no longer registered) device, and one that carries the key of another registered device, may be accepted or refused; in both cases every other device must stay untouched",
 			"reports in this check stay inside the capacity domain of C02 (capacity < 2^64/135 for reporting devices)",
-			"fault model for the persist step: ENOENT on opening equipment-authorizations.dat (no O_CREATE in the server); other I/O errors (EIO, ENOSPC, short writes) are not injected",
+			"fault model for the persist step: ENOENT on opening equipment-authorizations.dat (renamed away; no O_CREATE in the server) and ENOSPC on the write (the name is a symlink to /dev/full for the one request); EIO, short writes and close errors are not injected",
 			"HTTP status classes asserted: 200 for a valid new authorization and for an exact duplicate; non-200 for bad signatures, conflicts and banned ids",
 		},
 		Plan:          plan,
@@ -117,7 +117,8 @@ func post(c *ev.Check, outs []*run.Outcome) {
 	}
 	for _, k := range []string{"obs.new_accepted", "obs.duplicate_ok", "obs.ban", "obs.badsig_refused", "obs.banned_id_refused", "obs.report_accepted", "obs.banned_report_ignored",
 		"obs.restart", "obs.restart_with_banned_reports_on_disk", "obs.conflict_with_other_registered_key", "obs.float_roundtrip_special", "check_invariants_calls", "surface.equipment", "surface.sync", "surface.recent", "surface.stats",
-		"surface.archived_week", "keyreuse.probes", "fault.conflict", "fault.new", "fault.duplicate", "obs.fault_then_restart", "obs.fault_retry_bans", "conc.identical_rounds", "conc.conflict_rounds", "conc.fifo_rounds"} {
+		"surface.archived_week", "keyreuse.probes", "fault.conflict", "fault.new", "fault.duplicate", "obs.fault_then_restart", "obs.fault_retry_bans", "conc.identical_rounds", "conc.conflict_rounds", "conc.fifo_rounds", "fault.mode_enoent", "fault.mode_enospc",
+		"keyreuse.owner_id_class_0", "keyreuse.owner_id_class_1", "keyreuse.owner_id_class_2", "keyreuse.in_sequences"} {
 		c.Require(k, 1)
 	}
 	for _, f := range fieldNames {
@@ -181,6 +182,7 @@ type world struct {
 	foreign   refenc.Key
 	savedViol int
 	restarts  int
+	forceID   *uint32 // next fresh id (probes with the extreme ids 0 and 2^32-1)
 }
 
 func overCapacity(power, capacity uint64) bool {
@@ -279,7 +281,7 @@ func (w *world) addDev(d *dev) {
 // ---------------------------------------------------------------- generators
 
 var fieldNames = []string{"PublicKey", "Latitude", "Longitude", "Capacity", "Debt", "Expiration", "Initialization", "ProtocolFee"}
-var badSigners = []string{"unsigned", "garbage", "temp", "server", "device", "foreignGCA", "wrongprefix", "bitflip"}
+var badSigners = []string{"unsigned", "garbage", "temp", "server", "device", "foreignGCA", "wrongprefix", "bitflip", "keepsig"}
 
 func (w *world) float() float64 {
 	rng := w.rng
@@ -346,6 +348,13 @@ func (w *world) u32() uint32 {
 }
 
 func (w *world) freshID() uint32 {
+	if w.forceID != nil {
+		id := *w.forceID
+		w.forceID = nil
+		if _, ok := w.devs[id]; !ok {
+			return id
+		}
+	}
 	for {
 		var id uint32
 		switch w.rng.Intn(8) {
@@ -855,6 +864,59 @@ func (w *world) opNewWithBannedKey() {
 	w.observe(x)
 }
 
+// opNewWithRegisteredKey: a fresh id that carries the key of a REGISTERED device (preferably the one with ShortID 0
+// or 2^32-1). Accepting or refusing is the server's choice; the owner of the key must stay untouched.
+func (w *world) opNewWithRegisteredKey() {
+	var owner *dev
+	for _, c := range w.sorted(stAuthorized) {
+		if owner == nil || c.id == 0 || (c.id == math.MaxUint32 && owner.id != 0) || (owner.id != 0 && owner.id != math.MaxUint32 && w.rng.Intn(3) == 0) {
+			owner = c
+		}
+	}
+	if owner == nil {
+		return
+	}
+	id := w.freshID()
+	a := w.mkAuth(id, owner.auth.Pub, true)
+	w.op("authorize NEW id=%d with the key of registered device %d auth=%x", id, owner.id, a.Bytes())
+	st, ok := w.authorize(a)
+	if !ok {
+		return
+	}
+	w.r.Count("keyreuse.in_sequences", 1)
+	w.r.Nontrivial(fmt.Sprintf("new/registered-key/owner-class-%v-%v", owner.id == 0, owner.id == math.MaxUint32))
+	snap := w.S.VerifSnapshot(false)
+	idx, inIdx := snap.ShortIDs[owner.auth.Pub]
+	invOK, invMsg := w.invariants()
+	if !inIdx || idx != owner.id || !invOK {
+		w.r.Violationf(keyReuseFinding, w.replay(), "a valid authorization for the NEW id %d that carries the public key of the registered device %d (status %d) damages device %d: its key now maps to %d (present=%v); CheckInvariants ok=%v %s",
+			id, owner.id, st, owner.id, idx, inIdx, invOK, invMsg)
+		w.checkpoint()
+		// bring the server back into a closable state: ban both ids
+		for _, t := range []refenc.Auth{a, owner.auth} {
+			t.Debt++
+			w.authorize(t.Signed(w.GCA.Priv))
+		}
+		if ok, _ := w.invariants(); !ok {
+			w.poisoned = true
+		}
+		w.stop = true
+		return
+	}
+	if st == 200 {
+		// accepted without damage: two authorized devices share a key, the by-key surfaces are ambiguous from here on
+		w.r.Count("keyreuse.accepted", 1)
+		w.r.Note("a new id with an already registered key was accepted without damaging the first device; sequence ended")
+		w.stop = true
+		return
+	}
+	w.r.Count("keyreuse.refused", 1)
+	d := &dev{id: id, state: stNever, slots: map[uint32]*slotM{}, auth: a}
+	d.auth.Pub = refenc.GenKey(w.rng).Pub
+	w.addDev(d)
+	w.observe(expect{kind: "none", id: id, what: fmt.Sprintf("new id %d with the key of registered device %d (status %d)", id, owner.id, st), class: "new-with-registered-key"})
+}
+
 // badSign produces an authorization that is NOT validly signed by the registered GCA.
 func (w *world) badSign(a refenc.Auth, signer string) refenc.Auth {
 	switch signer {
@@ -880,6 +942,7 @@ func (w *world) badSign(a refenc.Auth, signer string) refenc.Auth {
 			sb = append([]byte("EquipmentReport"), sb...)
 		}
 		a.Sig = refenc.Sign(w.GCA.Priv, sb)
+	case "keepsig": // whatever signature the authorization carries already (the registered one's, over other content)
 	case "bitflip": // valid signature, one content bit flipped afterwards
 		a = a.Signed(w.GCA.Priv)
 		switch w.rng.Intn(4) {
@@ -900,7 +963,11 @@ func (w *world) badSign(a refenc.Auth, signer string) refenc.Auth {
 func (w *world) opBadSig(signer string) {
 	var a refenc.Auth
 	target := "fresh"
-	switch w.rng.Intn(4) {
+	pickTarget := w.rng.Intn(4)
+	if signer == "keepsig" {
+		pickTarget = 1 // an altered copy of a registered authorization (same id, same key) that keeps the ORIGINAL signature
+	}
+	switch pickTarget {
 	case 0:
 		if d := w.pick(stAuthorized); d != nil { // same content as the registered one
 			a, target = d.auth, "registered-same-content"
@@ -908,7 +975,18 @@ func (w *world) opBadSig(signer string) {
 	case 1:
 		if d := w.pick(stAuthorized); d != nil { // would be a conflict if it were valid
 			a, target = d.auth, "registered-other-content"
-			a.Debt++
+			switch w.rng.Intn(5) { // same id, same key, one other field changed
+			case 0:
+				a.Debt++
+			case 1:
+				a.Capacity ^= 1 << uint(w.rng.Intn(64))
+			case 2:
+				a.Lat = math.Float64frombits(math.Float64bits(a.Lat) ^ 1<<uint(w.rng.Intn(52)))
+			case 3:
+				a.Expiration ^= 1 << uint(w.rng.Intn(32))
+			default:
+				a.Fee ^= 1 << uint(w.rng.Intn(64))
+			}
 		}
 	case 2:
 		if d := w.pick(stBanned); d != nil {
@@ -1152,6 +1230,14 @@ func (w *world) opBannedSubmit() {
 // state right after the request must be the state a restart rebuilds from disk.
 // Accepted: nothing changed, or changed consistently in memory and on disk.
 func (w *world) opFault(kind string, d *dev, restartAfter, retry bool) {
+	// two ways to fail the persist step: the file cannot be opened (renamed away: ENOENT), or it opens but the
+	// write fails (the name is a symlink to /dev/full for this one request: ENOSPC)
+	mode := "enoent"
+	if w.rng.Intn(2) == 0 {
+		if _, err := os.Stat("/dev/full"); err == nil {
+			mode = "enospc"
+		}
+	}
 	var a refenc.Auth
 	switch kind {
 	case "conflict", "duplicate":
@@ -1173,13 +1259,24 @@ func (w *world) opFault(kind string, d *dev, restartAfter, retry bool) {
 	}
 	path := filepath.Join(w.Dir, "equipment-authorizations.dat")
 	away := path + ".away"
-	w.op("FAULT authorization file unavailable during: authorize %s id=%d auth=%x", kind, a.ID, a.Bytes())
+	w.op("FAULT authorization file unavailable (%s) during: authorize %s id=%d auth=%x", mode, kind, a.ID, a.Bytes())
 	if err := os.Rename(path, away); err != nil {
 		w.r.Inconc("fault injection: " + err.Error())
 		w.stop = true
 		return
 	}
+	if mode == "enospc" {
+		if err := os.Symlink("/dev/full", path); err != nil {
+			os.Rename(away, path)
+			w.r.Inconc("fault injection: " + err.Error())
+			w.stop = true
+			return
+		}
+	}
 	st, ok := w.authorize(a)
+	if fi, err := os.Lstat(path); err == nil && fi.Mode()&os.ModeSymlink != 0 {
+		os.Remove(path)
+	}
 	// put the file back; should the server have created a new one, keep its records behind the old ones
 	if created, err := os.ReadFile(path); err == nil {
 		old, _ := os.ReadFile(away)
@@ -1195,8 +1292,9 @@ func (w *world) opFault(kind string, d *dev, restartAfter, retry bool) {
 		return
 	}
 	w.r.Count("fault."+kind, 1)
-	w.r.Nontrivial("fault/" + kind + w.ctx(d))
-	what := fmt.Sprintf("%s authorization for id %d while the authorization file was unavailable (status %d)", kind, a.ID, st)
+	w.r.Count("fault.mode_"+mode, 1)
+	w.r.Nontrivial("fault/" + kind + "/" + mode + w.ctx(d))
+	what := fmt.Sprintf("%s authorization for id %d while the authorization file was unavailable (%s, status %d)", kind, a.ID, mode, st)
 	if kind == "duplicate" && st != 200 {
 		w.r.Violationf("exact-duplicate-refused", w.replay(), "%s: an exact duplicate needs no write and must be answered 200", what)
 	}
@@ -1479,9 +1577,20 @@ func runSequence(b run.Batch, r *ev.Result, rng *rand.Rand, n int) bool {
 		return false
 	}
 	defer w.finish()
-	// two reporting devices to start with
+	// two reporting devices to start with; in half of the sequences the first one has an extreme ShortID
+	switch n % 4 {
+	case 0:
+		id := uint32(0)
+		w.forceID = &id
+	case 1:
+		id := uint32(math.MaxUint32)
+		w.forceID = &id
+	}
 	for i := 0; i < 2 && !w.stop; i++ {
 		w.opNew(true)
+	}
+	if !w.stop {
+		w.opNewWithRegisteredKey()
 	}
 	if n%3 == 0 && !w.stop { // archive a week that contains reports of a device that may be banned later
 		for i := 0; i < 4 && !w.stop; i++ {
@@ -1498,8 +1607,10 @@ func runSequence(b run.Batch, r *ev.Result, rng *rand.Rand, n int) bool {
 			if len(w.sorted(stAuthorized)) < 7 {
 				w.opNew(rng.Intn(3) != 0)
 			}
-		case p < 15:
+		case p < 14:
 			w.opNewWithBannedKey()
+		case p < 15:
+			w.opNewWithRegisteredKey()
 		case p < 30:
 			w.opBadSig(badSigners[rng.Intn(len(badSigners))])
 		case p < 38:
@@ -1561,6 +1672,7 @@ func runSequence(b run.Batch, r *ev.Result, rng *rand.Rand, n int) bool {
 		func() { w.opFault([]string{"new", "duplicate"}[n%2], nil, n%4 == 1, false) },
 		func() { w.opDup() },
 		func() { w.opNew(true) },
+		func() { w.opNewWithRegisteredKey() },
 		func() { w.opReport(stAuthorized) },
 	}
 	for _, s := range steps {
@@ -1599,11 +1711,21 @@ func runKeyReuse(b run.Batch, r *ev.Result, rng *rand.Rand, n int) bool {
 		return false
 	}
 	defer w.finish()
+	// the owner of the key that is going to be reused: ShortID 0, 2^32-1 or a random one
+	switch n % 3 {
+	case 0:
+		id := uint32(0)
+		w.forceID = &id
+	case 1:
+		id := uint32(math.MaxUint32)
+		w.forceID = &id
+	}
 	A := w.opNew(true)
 	B := w.opNew(true)
 	if A == nil || B == nil || w.stop {
 		return true
 	}
+	r.Count(fmt.Sprintf("keyreuse.owner_id_class_%d", n%3), 1)
 	for i := 0; i < 5 && !w.stop; i++ {
 		w.opReport(stAuthorized)
 	}
